@@ -23,6 +23,7 @@ Where each fact is used by the model:
 * `pmNew/pmCreateRandomInner/mgNewFromBuffer`  (`pmNew`, `pmRand`, `mgFromBuffer`), parametric in the wipes.
 * `memcallClean`           Unlock then Free, both attempted (`Run.clean`).
 * `wrap*`                  `memcall.Default` forwards 1:1 to github.com/awnumar/memcall.
+(The extractor prints every local error variable as `err`: `if(err2!=nil){` appears as `if(err!=nil){`.)
 * `pmWithBytes…/readerRead` access; deferred release (errors combined); action (`withBytes`, `readerStep`).
 -/
 namespace AsherahVerif.Expected.SecMem
@@ -32,10 +33,10 @@ def pmRelease : List String := ["s.rw.Lock", "defer:s.rw.Unlock", "defer:s.c.Bro
 def pmIsClosed : List String := ["s.rw.RLock", "defer:s.rw.RUnlock", "return"]
 def pmClose : List String := ["s.rw.Lock", "defer:s.rw.Unlock", "assign:s.closing", "for(){", "if(s.closed){", "return", "}", "if(s.accessCounter==0){", "s.close", "return^", "}", "s.c.Wait", "}"]
 def pmCloseInner : List String := ["memcall.ReadWrite", "s.mc.Protect", "if(err!=nil){", "return", "}", "core.Wipe", "s.mc.Unlock", "if(err!=nil){", "return", "}", "s.mc.Free", "if(err!=nil){", "return", "}", "assign:s.bytes", "assign:s.closed", "securememory.InUseCounter.Dec", "return"]
-def withBytes : List String := ["s.access", "if(err!=nil){", "return", "}", "defer:func{", "s.release", "if(err2!=nil){", "if(err==nil){", "return", "}", "err2.Error", "errors.WithMessage", "return", "}", "}", "action", "return^"]
-def mgWithBytes : List String := ["s.access", "if(err!=nil){", "return", "}", "defer:func{", "s.release", "if(err2!=nil){", "if(err==nil){", "return", "}", "err2.Error", "errors.WithMessage", "return", "}", "}", "s.buffer.Bytes", "action", "return^"]
+def withBytes : List String := ["s.access", "if(err!=nil){", "return", "}", "defer:func{", "s.release", "if(err!=nil){", "if(err==nil){", "return", "}", "err.Error", "errors.WithMessage", "return", "}", "}", "action", "return^"]
+def mgWithBytes : List String := ["s.access", "if(err!=nil){", "return", "}", "defer:func{", "s.release", "if(err!=nil){", "if(err==nil){", "return", "}", "err.Error", "errors.WithMessage", "return", "}", "}", "s.buffer.Bytes", "action", "return^"]
 def pmCreateRandom : List String := ["f.createRandom", "return^"]
-def pmNewSecret : List String := ["if(size<1){", "return", "}", "mc.Alloc", "if(err!=nil){", "return", "}", "mc.Lock", "if(err!=nil){", "mc.Free", "if(err2!=nil){", "err2.Error", "errors.Wrap", "}", "return", "}", "sync.NewCond", "if(log.DebugEnabled()){", "assign:internal.externalAddr", "debug.Stack", "assign:internal.stack", "}", "func{", "go:internal.Finalize", "}", "runtime.SetFinalizer", "return"]
+def pmNewSecret : List String := ["if(size<1){", "return", "}", "mc.Alloc", "if(err!=nil){", "return", "}", "mc.Lock", "if(err!=nil){", "mc.Free", "if(err!=nil){", "err.Error", "errors.Wrap", "}", "return", "}", "sync.NewCond", "if(log.DebugEnabled()){", "assign:internal.externalAddr", "debug.Stack", "assign:internal.stack", "}", "func{", "go:internal.Finalize", "}", "runtime.SetFinalizer", "return"]
 def newReader : List String := ["secrets.NewReader", "return^"]
 
 def mgAccess : List String := ["s.rw.Lock", "defer:s.rw.Unlock", "s.buffer.IsAlive", "if(s.closing||!s.buffer.IsAlive()){", "errors.WithStack", "return^", "}", "if(s.accessCounter==0){", "s.buffer.Inner", "memcall.ReadOnly", "s.mc.Protect", "if(err!=nil){", "errors.WithMessage", "return^", "}", "}", "assign:s.accessCounter++", "return"]
@@ -45,7 +46,7 @@ def mgClose : List String := ["s.rw.Lock", "defer:s.rw.Unlock", "assign:s.closin
 def mgNew : List String := ["time.Now", "defer:AllocTimer.UpdateSince", "memguard.NewBufferFromBytes", "f.newFromBuffer", "return^"]
 def mgCreateRandom : List String := ["time.Now", "defer:AllocTimer.UpdateSince", "memguard.NewBufferRandom", "f.newFromBuffer", "return^"]
 
-def memcallClean : List String := ["c.Unlock", "if(err!=nil){", "errors.WithStack", "}", "c.Free", "if(err2!=nil){", "errors.WithStack", "if(err==nil){", "}else{", "err2.Error", "errors.Wrap", "}", "}", "return"]
+def memcallClean : List String := ["c.Unlock", "if(err!=nil){", "errors.WithStack", "}", "c.Free", "if(err!=nil){", "errors.WithStack", "if(err==nil){", "}else{", "err.Error", "errors.Wrap", "}", "}", "return"]
 def wrapAlloc : List String := ["memcall.Alloc", "return^"]
 def wrapProtect : List String := ["memcall.Protect", "return^"]
 def wrapLock : List String := ["memcall.Lock", "return^"]
@@ -63,7 +64,7 @@ def pmNew (wipeArg wipeProt : Bool) : List String :=
   ["time.Now", "defer:AllocTimer.UpdateSince", "f.memcall", "newSecret", "if(err!=nil){"] ++ opt wipeArg ["core.Wipe"] ++
   ["return", "}", "subtle.ConstantTimeCopy", "core.Wipe", "memcall.NoAccess", "f.memcall", "f.memcall().Protect", "if(err!=nil){"] ++
   opt wipeProt ["core.Wipe"] ++
-  ["f.memcall", "memcall.Clean", "if(err2!=nil){", "err2.Error", "errors.Wrap", "}", "return", "}",
+  ["f.memcall", "memcall.Clean", "if(err!=nil){", "err.Error", "errors.Wrap", "}", "return", "}",
    "securememory.AllocCounter.Inc", "securememory.InUseCounter.Inc", "return"]
 
 /-- `createRandom`: `wipeRand` / `wipeProt` = `core.Wipe(s.bytes)` before the cleanup of the failed
@@ -71,18 +72,18 @@ random read / the failed Protect. -/
 def pmCreateRandomInner (wipeRand wipeProt : Bool) : List String :=
   ["time.Now", "defer:AllocTimer.UpdateSince", "f.memcall", "newSecret", "if(err!=nil){", "return", "}", "readFunc", "if(err!=nil){"] ++
   opt wipeRand ["core.Wipe"] ++
-  ["f.memcall", "memcall.Clean", "if(err2!=nil){", "err2.Error", "errors.Wrap", "}", "return", "}",
+  ["f.memcall", "memcall.Clean", "if(err!=nil){", "err.Error", "errors.Wrap", "}", "return", "}",
    "memcall.NoAccess", "f.memcall", "f.memcall().Protect", "if(err!=nil){"] ++
   opt wipeProt ["core.Wipe"] ++
-  ["f.memcall", "f.memcall().Unlock", "if(err2!=nil){", "err2.Error", "errors.Wrap", "}",
-   "f.memcall", "f.memcall().Free", "if(err2!=nil){", "err2.Error", "errors.Wrap", "}", "return", "}",
+  ["f.memcall", "f.memcall().Unlock", "if(err!=nil){", "err.Error", "errors.Wrap", "}",
+   "f.memcall", "f.memcall().Free", "if(err!=nil){", "err.Error", "errors.Wrap", "}", "return", "}",
    "securememory.AllocCounter.Inc", "securememory.InUseCounter.Inc", "return"]
 
 /-- memguard `newFromBuffer`: `wipe` = `lb.Melt(); lb.Wipe()` before `memcall.Clean(…, lb.Inner())`. -/
 def mgNewFromBuffer (wipe : Bool) : List String :=
   ["lb.IsAlive", "if(!lb.IsAlive()){", "errors.WithStack", "return^", "}", "lb.Inner", "memcall.NoAccess", "f.memcall",
    "f.memcall().Protect", "if(err!=nil){"] ++ opt wipe ["lb.Melt", "lb.Wipe"] ++
-  ["f.memcall", "lb.Inner", "memcall.Clean", "if(err2!=nil){", "err2.Error", "errors.Wrap", "}", "return", "}",
+  ["f.memcall", "lb.Inner", "memcall.Clean", "if(err!=nil){", "err.Error", "errors.Wrap", "}", "return", "}",
    "securememory.AllocCounter.Inc", "securememory.InUseCounter.Inc", "sync.NewCond", "f.memcall", "return^"]
 
 /-! ### reading facts off a skeleton -/
